@@ -366,6 +366,9 @@ def run(ctx):
             refund.append((bi, trb.expr_rvalue(st["r"])))
     okr = False
     for bi, e in refund:
+        # `checked_add(n).unwrap_or(usize::MAX)` is saturating_add(n)
+        while e[0] == "call" and e[1].rsplit("::", 1)[-1] in ("unwrap_or", "unwrap", "unwrap_or_else", "unwrap_or_default", "expect") and e[2]:
+            e = e[2][0]
         args = e[2] if e[0] == "call" and e[1].rsplit("::", 1)[-1] in ("saturating_add", "checked_add", "wrapping_add") else (e[2:4] if e[0] == "bin" and e[1] == "Add" else None)
         if args and len(args) == 2:
             roles = {F.fmt_expr(L.strip_wrappers(a)) for a in args}
